@@ -31,8 +31,7 @@ import (
 //         Feature.ID stores (id), the `meta` property (meta), the `relations` property or updates of the
 //         membership map (membership; the latter must not depend on the option for node members: with
 //         <member>.Type == osm.TypeNode the branch is the same whatever the option says);
-//       - includeInvalidPolygons may be used only in functions that handle orb.MultiPolygon values or are
-//         called only from such functions.
+//       - includeInvalidPolygons may be used only in the multipolygon builder, decided by role (c17_role.go).
 //  3. Guards. Every store of Feature.ID / of the `meta` / `relations` property is unreachable in its function
 //     when the corresponding option is set (or the function is an unexported helper all of whose call sites
 //     are); every read of the membership map is unreachable under NoRelationMembership, keyed by a node's
@@ -586,7 +585,7 @@ func (an *c17G3An) checkUse(f *types.Var, role string, fn *c17Fn, b, dS, aS *cfg
 		}
 	case "invalid":
 		if !a.polygonOnly(fn, map[*c17Fn]bool{}) {
-			r.Bad(c, pos, "%s decides `%s` in %s, which neither handles orb.MultiPolygon values nor is called only from functions that do; the option is documented for multipolygon relations only", f.Name(), src(fset, cond), fn.Name())
+			r.Bad(c, pos, "%s decides `%s` in %s, which is not part of the multipolygon builder (it has no orb.MultiPolygon value, reaches no function that has, and is not called only from such functions); the option is documented for multipolygon relations only", f.Name(), src(fset, cond), fn.Name())
 			return
 		}
 		r.OK(c, pos, "`%s`: with %s unset the branch only skips (no effect of its own, leaves by nil/unchanged-argument return or falls through); setting the option removes the skip and nothing else; %s is part of the multipolygon builder", src(fset, cond), f.Name(), fn.Name())
